@@ -351,6 +351,62 @@ pub fn gen_un_c03(c: &mut dyn Choices, len_hint: usize, alphabet: usize) -> Un {
   }
 }
 
+/// compact variant of `gen_un_c03` for bounded-exhaustive enumeration of operator *pairs*: the same 37
+/// operators, function families cut down to the members that differ on {0,1,2}, counts 0..=len+1
+pub fn gen_un_compact(c: &mut dyn Choices, len_hint: usize) -> Un {
+  fn pred(c: &mut dyn Choices) -> Pred {
+    *c.one_of(&[Pred::Lt(1), Pred::Eq(1), Pred::Even, Pred::Const(true), Pred::Const(false)])
+  }
+  fn cnt(c: &mut dyn Choices, len_hint: usize, min: usize) -> usize {
+    min + c.pick(len_hint + 2 - min)
+  }
+  fn fold(c: &mut dyn Choices) -> Fold {
+    *c.one_of(&[Fold::Add, Fold::TwoAPlusB])
+  }
+  fn keyf(c: &mut dyn Choices) -> KeyF {
+    *c.one_of(&[KeyF::Mod2, KeyF::Id, KeyF::Const])
+  }
+  match c.pick(N_C03_UN) {
+    0 => Un::Map(*c.one_of(&[MapF::Add(1), MapF::Mod(2), MapF::Id])),
+    1 => Un::MapTo(gen_v(c, 2)),
+    2 => Un::Filter(pred(c)),
+    3 => Un::FilterMap,
+    4 => Un::Tap,
+    5 => Un::Take(cnt(c, len_hint, 0)),
+    6 => Un::Skip(cnt(c, len_hint, 0)),
+    7 => Un::TakeWhile(pred(c)),
+    8 => Un::TakeWhileInclusive(pred(c)),
+    9 => Un::SkipWhile(pred(c)),
+    10 => Un::TakeLast(cnt(c, len_hint, 0)),
+    11 => Un::SkipLast(cnt(c, len_hint, 0)),
+    12 => Un::First,
+    13 => Un::FirstOr(gen_v(c, 2)),
+    14 => Un::Last,
+    15 => Un::LastOr(gen_v(c, 2)),
+    16 => Un::ElementAt(cnt(c, len_hint, 0)),
+    17 => Un::IgnoreElements,
+    18 => Un::StartWith(gen_vs(c, 1, 2)),
+    19 => Un::DefaultIfEmpty(gen_v(c, 2)),
+    20 => Un::Scan(fold(c), gen_v(c, 2)),
+    21 => Un::Reduce(fold(c), gen_v(c, 2)),
+    22 => Un::Count,
+    23 => Un::Sum,
+    24 => Un::Min,
+    25 => Un::Max,
+    26 => Un::Average,
+    27 => Un::Distinct,
+    28 => Un::DistinctKey(keyf(c)),
+    29 => Un::DistinctUntilChanged,
+    30 => Un::DistinctUntilKeyChanged(keyf(c)),
+    31 => Un::Pairwise,
+    32 => Un::BufferWithCount(cnt(c, len_hint, 1)),
+    33 => Un::Contains(gen_v(c, 2)),
+    34 => Un::All(pred(c)),
+    35 => Un::Collect,
+    _ => Un::OnErrorMap(1 + c.pick(2) as u8),
+  }
+}
+
 /// a synchronous `create` script: items, terminals through cloned handles, and
 /// (when `post` is set) events after the first terminal
 pub fn gen_create_script(c: &mut dyn Choices, max_len: usize, alphabet: usize, post: bool) -> Vec<(u8, Ev)> {
